@@ -287,6 +287,26 @@ func c10Frame(g gen.G, pool map[uint16][][]byte) []byte {
 		f[g.Intn(len(f))] = g.U8()
 	case 1:
 		f = f[:g.Intn(len(f))]
+	case 2, 3:
+		// broken escape structure BEHIND well-formed escape pairs: the decoder has already produced output for this frame when it
+		// meets the mistake (whatever it keeps per frame - a scratch buffer, a pooled object - is part-filled at the error exit)
+		if n := len(payload); n > 20 {
+			for k := 2 + g.Intn(4); k > 0; k-- {
+				payload[13+g.Intn(n-14)] = core.Pick(g.Rand, []byte{0x7e, 0x7d})
+			}
+			f = ref.Escape(c02Fix(payload))
+			last := bytes.LastIndexByte(f[:len(f)-2], 0x7d)
+			if last > 0 {
+				switch g.Intn(3) {
+				case 0:
+					f[last+1] = core.Pick(g.Rand, []byte{0x00, 0x03, 0x05, 0x7d, 0xff, 0x10})
+				case 1: // a bare 7d: the pair's second byte removed
+					f = append(f[:last+1], f[last+2:]...)
+				case 2: // the frame ends inside the pair
+					f = append(f[:last+1], 0x7e)
+				}
+			}
+		}
 	}
 	return f
 }
@@ -512,6 +532,8 @@ func c10RespondHostile(addr string, g gen.G, pool map[uint16][][]byte, j *core.J
 // ---- JT808 server ---------------------------------------------------------------------------
 
 // c10Canary runs request/reply rounds on one long-lived connection until stop; every reply is checked with R-reply.
+var escapedCanaryFrames atomic.Int64
+
 func c10Canary(c *core.Collector, addr string, id int, stop *atomic.Bool, rounds *atomic.Int64) {
 	t, err := svc.Dial(addr, id%2 == 1, fmt.Sprintf("%d", 9100000+id))
 	if err != nil {
@@ -525,6 +547,13 @@ func c10Canary(c *core.Collector, addr string, id int, stop *atomic.Bool, rounds
 	for !stop.Load() {
 		rid := core.Pick(g.Rand, []uint16{0x0002, 0x0200, 0x0100, 0x0102, 0x0704, 0x0801})
 		body := c06Body(g, rid, t.V2019, t.Phone)
+		if rid == 0x0200 && len(body) >= 28 && g.Chance(2, 3) {
+			// well-behaved frames need escaping as well (coordinates that contain 7e / 7d): the session's frames take the decoder's
+			// slow path, next to whatever the hostile connections left behind there
+			body = bytes.Clone(body)
+			body[8+g.Intn(4)], body[12+g.Intn(4)] = 0x7e, 0x7d
+			escapedCanaryFrames.Add(1)
+		}
 		if ref.ExpectedReply(rid, serial+1, body, t.V2019, t.Phone) == nil {
 			continue // by design unanswered (2019 auth too short for its fixed fields)
 		}
@@ -873,6 +902,7 @@ func c10JT808(c *core.Collector, x *Ctx, parsing bool) {
 	stop.Store(true)
 	wg.Wait()
 	c.Count("canary_rounds", rounds.Load())
+	c.Count("canary_frames_that_needed_escaping", escapedCanaryFrames.Load())
 	c.Count("commands_routed_to_hostile_connections", cmds.Load())
 	c.Count("probes", int64(probes))
 	c.Count("impersonations_followed_by_a_command_to_the_victim", impersonations.Load())
